@@ -5,6 +5,7 @@
    Case lines (tag = generator's label/expectation, not read here):
      C10|sc|op|a|b|g|tag            scalar kernel: generated function AND k_ kernel -> r0,r1 | panic
      C10|zt|tag                     zetas table
+     C10|hang|set|seed|msg|tag      emitted by the generator when Go's signing did not return -> returns
      C10|ntt|poly|tag  C10|intt|poly|tag
      C10|sbp|bits|poly|tag  C10|bp|a|bits|poly|tag     -> hex
      C10|sbu|bits|hex|tag   C10|bu|a|bits|hex|tag      -> poly | PANIC
@@ -92,6 +93,7 @@ let handle line =
   | [_; "sc"; op; a; b; g; _] ->
     let (gen, k) = scalar op (u32 a) (u32 b) (u32 g) in
     if gen = k then gen else "KERNEL-DIFF gen=" ^ gen ^ " k=" ^ k
+  | [_; "hang"; _; _; _; _] -> "returns"   (* FIPS 204 signing terminates (with overwhelming probability) *)
   | [_; "zt"; _] -> hex_of_poly mldsa_zetas
   | [_; "ntt"; p; _] -> hex_of_poly (ntt (poly_of_hex p))
   | [_; "intt"; p; _] -> hex_of_poly (intt (poly_of_hex p))
